@@ -22,7 +22,8 @@ _TREES: dict = {}
 def _tree(path):
     if path not in _TREES:
         try:
-            _TREES[path] = ast.parse(open(path, encoding="utf-8").read())
+            with open(path, encoding="utf-8") as fh:
+                _TREES[path] = ast.parse(fh.read())
         except Exception:  # noqa: BLE001 - a file that does not parse is not ours to judge
             _TREES[path] = None
     return _TREES[path]
